@@ -159,3 +159,12 @@ Theorem C01_source_tie_toECEF : forall (el : ellipsoid (T:=R)) (g : geodetic (T:
   = (vx (toECEF ROps el g), vy (toECEF ROps el g), vz (toECEF ROps el g)).
 Proof. exact tie_toECEF. Qed.
 Print Assumptions C01_source_tie_toECEF.
+
+(* the INVERSE map, loop included: ECEFConverter::toWGS84 regenerated from the clang AST (the while loop becomes a local
+   fix on the fuel argument) is the model's toWGS84 for every fuel; None = the loop is still running after `fuel` passes *)
+From Romea Require Import SrcTieLoops.
+Theorem C01_source_tie_toWGS84 : forall fuel (el : ellipsoid (T:=R)) (p : vec3 (T:=R)),
+  src_ecefToWGS84 ROps fuel (vx p) (vy p) (vz p) (el_a el) (el_e2 el)
+  = match toWGS84 ROps fuel el p with None => None | Some g => Some (g_lat g, g_lon g, g_alt g) end.
+Proof. exact tie_ecefToWGS84. Qed.
+Print Assumptions C01_source_tie_toWGS84.
